@@ -38,6 +38,21 @@ def group_checks(case, obs, out):
         # a successful JoinGroup reply is followed by SyncGroup for that generation / member id
         seq = [a for a in arrs if a.api in GROUP_APIS]
         sub_changes = [e for e in obs.events if e["kind"] == "subscribe" and e["member"] == tag]
+        # the member learning of a new topic or partition count (metadata reply that differs from the previous one)
+        # is a subscription / assignment-input change as well: pattern subscriptions and leaders rejoin on it
+        md_changes = []
+        prev_sig = None
+        for x in c.arrivals:
+            if x.api == "metadata" and x.client_id == tag and x.delivered and x.reply and x.t_end is not None:
+                sig = sorted((t["topic"], len(t["partitions"])) for t in x.reply["topics"] if not t.get("error"))
+                known = dict(prev_sig or [])
+                if prev_sig is not None and any(known.get(tn) != n for tn, n in sig):
+                    md_changes.append(x.t_end)
+                if prev_sig is None:
+                    prev_sig = sig
+                else:
+                    known.update(dict(sig))
+                    prev_sig = sorted(known.items())
         for i, a in enumerate(seq):
             if a.api != "join" or not a.reply or a.reply.get("error") != 0 or a.t_end is None or not a.delivered:
                 continue
@@ -56,6 +71,7 @@ def group_checks(case, obs, out):
             tw = seq[i - 1].t_written if i > 0 else 0.0
             excused = any(tw - 1e-9 <= f[0] <= t1 + 1e-9 for f in c.fault_log) or \
                 any(tw - 1e-9 <= e["t"] <= t1 + 1e-9 for e in sub_changes) or \
+                any(tw - 1e-9 <= t <= t1 + 1e-9 for t in md_changes) or \
                 any(e["kind"] == "killed" and e["member"] == tag for e in obs.events) or \
                 any(e["kind"] == "stop_call" and e["member"] == tag and e["t"] <= t1 + 1e-9 for e in obs.events)
             # metadata changes (partition counts / topics) between reply and next request
@@ -72,6 +88,41 @@ def group_checks(case, obs, out):
                           "t_reply": t0, "t_next": t1})
 
 
+def generation_completeness(case, obs, out):
+    """Every generation's distributed assignments cover every partition (that existed from the start) of every topic
+    some member of that generation subscribed to: the leader assigns from metadata fetched for the group's whole
+    topic list.  Only judged when no request of the case is dropped or lost - a failed metadata request lets the
+    leader legitimately assign from what it knows and repair it after the next refresh."""
+    c = obs.cluster
+    clean_net = all(f.get("act") in ("error", "delay") and f.get("sel") != "metadata" for f in case.get("faults", [])) \
+        and not case.get("kills") and not any(e.get("ev") in ("node_down", "leader_gone") for e in case.get("env", []))
+    g = c.groups.groups.get("g")
+    if not clean_net or g is None:
+        return
+    for gen in g.generations:
+        if not gen["assignments"]:
+            continue
+        seen = set()
+        union = set()
+        try:
+            for mid, raw in gen["assignments"].items():
+                seen |= set(GS.decode_assignment(raw))
+            for mid, minfo in gen["members"].items():
+                union |= set(GS.decode_subscription(minfo["metadata"]))
+        except Exception:
+            continue
+        for t in sorted(union):
+            n0 = case["cluster"]["topics"].get(t)
+            if not n0:
+                continue
+            missing = [p for p in range(n0) if (t, p) not in seen]
+            if missing:
+                out.fail("covers", "subscribed_partition_not_assigned_in_generation",
+                         {"generation": gen["generation"], "topic": t, "missing": missing, "leader": gen.get("leader"),
+                          "subscriptions": {m: sorted(GS.decode_subscription(i["metadata"])) for m, i in gen["members"].items()}})
+                return
+
+
 def evaluate(case, obs):
     out = Outcome()
     c = obs.cluster
@@ -81,6 +132,7 @@ def evaluate(case, obs):
         out.fail("converges", "deadlock", {"deadlock": obs.deadlock})
         return out
     group_checks(case, obs, out)
+    generation_completeness(case, obs, out)
     for e in obs.events:
         if e["kind"] == "crash":
             out.fail("converges", "consumer_api_raised:" + e["error"], {"member": e["member"], "detail": e["detail"],
